@@ -1229,7 +1229,7 @@ class Interp:
             return 'bool'
         if isinstance(v, (int, z3.BitVecRef, OrdId)):
             return 'usize'
-        if isinstance(v, Closure):
+        if isinstance(v, (Closure, PyFn)):
             return 'closure'
         if isinstance(v, FnItem):
             return 'fnitem'
